@@ -22,6 +22,7 @@ Reading guide (property text → theorem)
 * "the notifier runs exactly once for every non-NULL value left at thread exit or replaced, never for
   set" → `destructor_exactly_once` (three clauses) and `destructor_only_then`.
 * lazy native-key creation → `key_race_single_winner`, `key_race_loser_cleans_up`, `tls_uses_published_key`.
+* `p_uthread_init` / `p_uthread_shutdown` → `init_shutdown_neutral_threads`.
 * `p_uthread_local_free` (repaired: deletes the native key, frees its block) → `local_free_releases_native_key`,
   `native_release_once`; source-shape obligations of the F10 repair → `proxy_checks_its_slot`.
 * creation handshake → `fields_written_before_start`.
@@ -349,6 +350,21 @@ theorem tls_uses_published_key {s s' : State} (hr : Reach s) :
 
 
 
+
+/-- `p_uthread_init` … any history … `p_uthread_shutdown` is neutral for the thread module's TLS resources:
+    when the library is shut down (by a running thread `a`) in any reachable state in which nobody is inside a TLS
+    call — in particular when no library thread is alive any more — the library key's wrapper is released and
+    no native key and no native-key block of the library key remains (also when the key was never used: the
+    `p_uthread_get_local` inside shutdown creates the native key and `p_uthread_local_free` releases it again);
+    and if the user has released all of his keys, no native key and no block remains at all -/
+theorem init_shutdown_neutral_threads {s s' : State} {a : Nat} (hr : Reach s) (hs : shutdown s a = .ok s')
+    (hq : ∀ t, (s.thr t).pend = none) :
+    (s'.key 0).wrapperFreed = true ∧
+    (∀ n, n < s'.nN → (s'.nkey n).owner = 0 → (s'.nkey n).live = false ∧ (s'.nkey n).blockFreed = true) ∧
+    ((∀ k, 0 < k → k < s.nK → (s.key k).wrapperFreed = true) →
+      ∀ n, n < s'.nN → (s'.nkey n).live = false ∧ (s'.nkey n).blockFreed = true) :=
+  shutdown_neutral hr.inv.1 hs hq
+
 /-! ## the independent reference (`PV.Spec.UThread`) answers as the machine does -/
 
 open PV.UThreadSpec in
@@ -534,5 +550,17 @@ example : (match grun ginit (demo.take 11) with
 example : PV.UThreadSpec.obsRun init demo = PV.UThreadSpec.specRun {} demo := by rfl
 example : ((PV.UThreadSpec.specRun {} demo).drop 22).map (fun o => (o.ret, o.live, o.freed, o.dtor)) =
     [([], [0], [1], [(2, 1, 7)]), ([-3], [0], [], []), ([], [], [0], [])] := by rfl
+
+/-- init immediately followed by shutdown: the native key made by the `get_local` inside shutdown is released
+    again; and shutdown after `demo` (all threads ended, but the user key 1 never released): the library key's
+    native keys are gone, the user key's native key 2 is what remains -/
+example : (match shutdown init 0 with
+    | .ok s => some (s.nN, (s.nkey 0).live, (s.nkey 0).blockFreed, s.keyDelLog, s.blockFreeLog)
+    | .error _ => none) = some (1, false, true, [0], [0]) := by rfl
+example : (match run init demo with
+    | .ok s => (match shutdown s 0 with
+      | .ok s' => some ((List.range s'.nN).filter fun n => (s'.nkey n).live, s'.keyDelLog)
+      | .error _ => none)
+    | .error _ => none) = some ([2], [0, 1]) := by rfl
 
 end PV.UThread
